@@ -196,6 +196,9 @@ func RunParent(id, tier string, seed int64, onlyBatch, onlyCase int) int {
 	if p.TimeoutSec != nil {
 		timeout = p.TimeoutSec(tier)
 	}
+	if onlyCase >= 0 && onlyBatch < 0 {
+		onlyBatch = onlyCase % nb
+	}
 	batches := make([]int, 0, nb)
 	for b := 0; b < nb; b++ {
 		if onlyBatch >= 0 && b != onlyBatch {
